@@ -186,6 +186,9 @@ pub struct Unit {
 	pub n_payload: usize,
 	/// >= 3 nested arrays/maps
 	pub deep: bool,
+	/// extra units: (label, schema text given to the crate); `schema` is then the specification's
+	/// reading of that text
+	pub text: Option<(String, String)>,
 }
 
 fn wrapper(emb: Emb, s: &RSchema, id: usize) -> Option<(RSchema, usize)> {
@@ -223,14 +226,44 @@ pub fn units(p: &Params) -> Vec<Unit> {
 			let id = out.len();
 			if let Some((schema, n_payload)) = wrapper(emb, &s, id) {
 				let deep = crate::c03::collection_depth(&schema, &Env::new(&schema), 2) >= 3;
-				out.push(Unit { id, emb, schema, n_payload, deep });
+				out.push(Unit { id, emb, schema, n_payload, deep, text: None });
 			} else {
 				// keep ids stable: a placeholder that produces no job
-				out.push(Unit { id, emb, schema: RSchema::Null, n_payload: 0, deep: false });
+				out.push(Unit { id, emb, schema: RSchema::Null, n_payload: 0, deep: false, text: None });
 			}
 		}
 	}
+	// private extra units (after all units built on the shared alphabet): payloads whose logical type
+	// the specification says to ignore. The crate gets the text; the reference side reads it as the
+	// underlying type, whose encoded length is what skipping must consume.
+	for (label, x) in lay::ignored_logical_texts() {
+		let id0 = out.len();
+		for (emb, text) in [
+			(Emb::W1, format!("{{\"type\":\"record\",\"name\":\"verif.IgnW1_{id0}\",\"fields\":[{{\"name\":\"ignored\",\"type\":{x}}},{{\"name\":\"sentinel\",\"type\":\"long\"}}]}}")),
+			(Emb::W3Array, format!("{{\"type\":\"record\",\"name\":\"verif.IgnW3a_{id0}\",\"fields\":[{{\"name\":\"arr\",\"type\":{{\"type\":\"array\",\"items\":{x}}}}},{{\"name\":\"sentinel\",\"type\":\"long\"}}]}}")),
+			(Emb::L1, format!("{{\"type\":\"record\",\"name\":\"verif.IgnL1_{id0}\",\"fields\":[{{\"name\":\"sentinel\",\"type\":\"long\"}},{{\"name\":\"ignored\",\"type\":{x}}}]}}")),
+		] {
+			let schema = lay::resolve_effective(&text).unwrap_or_else(|e| panic!("MACHINERY: reference resolver rejects {text}: {e}"));
+			let id = out.len();
+			out.push(Unit { id, emb, schema, n_payload: 1, deep: false, text: Some((label.clone(), text)) });
+		}
+	}
 	out
+}
+
+/// The schema text as quoted in violations and replay files (extra units carry their label).
+fn display_text(u: &Unit) -> String {
+	match &u.text {
+		Some((label, t)) => format!("{t} [ignored-logical: {label}]"),
+		None => gen::schema_text(&u.schema),
+	}
+}
+
+fn unit_crate_schema(u: &Unit) -> Result<serde_avro_fast::Schema, String> {
+	match &u.text {
+		Some((_, t)) => t.parse::<serde_avro_fast::Schema>().map_err(|e| format!("subject rejects schema {t}: {e}")),
+		None => gen::to_crate_schema(&u.schema),
+	}
 }
 
 // ---------------------------------------------------------------------------------------------
@@ -529,7 +562,7 @@ const CHUNK_SIZES: [usize; 15] = [2, 3, 4, 5, 6, 7, 8, 9, 10, 11, 12, 16, 24, 32
 fn compare(seen: &Seen, expect: &O, len: usize) -> Option<(&'static str, String)> {
 	match seen {
 		Seen::Panic(m) => Some(("skip-panic", format!("panicked: {m}"))),
-		Seen::Err(e) => Some(("skip-err", format!("returned Err({e}); the non-ignoring decode succeeds and consumes {len} bytes"))),
+		Seen::Err(e) => Some(("skip-err", format!("returned Err({e}); the datum is a valid encoding of {len} bytes (reference model; the non-ignoring decode consumes the same unless noted)"))),
 		Seen::Ok(o, n) => {
 			if sentinel_of(o) != sentinel_of(expect) {
 				Some(("skip-sentinel", format!("sentinel observed as {:?} (non-ignoring decode: {SENTINEL}), consumed {n} of {len} bytes; whole observation {o:?}", sentinel_of(o))))
@@ -579,16 +612,18 @@ fn run_leaf(ctx: &Ctx, v: &RValue, bytes: &[u8], rec: &[Vec<Block>], replay_base
 		match seen {
 			Seen::Ok(o, n) if n == len && (ctx.u.emb.bare() || sentinel_of(&o) == Some(&O::I64(SENTINEL))) => baseline.push(Some(o)),
 			_ => {
-				// the non-ignoring decode itself is wrong: that is C03's subject, C12 has no reference here
+				// the non-ignoring decode itself is wrong: that is C03's subject. Only targets that do not
+				// look at the payload at all are still judged here, against the reference model (below)
 				cover.count("baseline_decode_unusable", 1);
 				baseline.push(None);
 			}
 		}
 	}
-	if baseline.iter().all(|b| b.is_none()) {
-		return;
+	// what the reference model says a correct non-ignoring decode observes
+	let model_obs = gen::expect_obs(v, s, ctx.env, ObsMode::Hinted, false);
+	if baseline.iter().any(|b| b.is_some()) {
+		cover.count("leaves_with_baseline", 1);
 	}
-	cover.count("leaves_with_baseline", 1);
 	// targets
 	let mut targets: Vec<Vec<Target>> = Vec::new();
 	let mut singles = Vec::new();
@@ -626,8 +661,19 @@ fn run_leaf(ctx: &Ctx, v: &RValue, bytes: &[u8], rec: &[Vec<Block>], replay_base
 		}
 		let mut ran = false;
 		let mut reader_expect: Option<O> = None;
+		// does the target leave the whole payload unread (so that only the skipping path and the
+		// sentinel are exercised)?
+		let whole_payload = tset.iter().any(|t| t.path.is_empty())
+			|| (0..=ctx.u.n_payload).filter(|i| Some(*i) != ctx.u.emb.sentinel_idx(ctx.u.n_payload)).all(|i| tset.iter().any(|t| t.path.len() == 1 && t.path[0] == i && t.kind != Kind::Unit));
 		for (pi, pname) in PATHS.iter().enumerate() {
-			let Some(base) = &baseline[pi] else { continue };
+			let base = match &baseline[pi] {
+				Some(b) => b,
+				None if whole_payload => {
+					cover.count("judged_against_the_reference_only", 1);
+					&model_obs
+				}
+				None => continue,
+			};
 			let mut h = full_hint.clone();
 			let mut expect = Some(base.clone());
 			for t in tset {
@@ -883,15 +929,34 @@ fn run_job(u: &Unit, job: &Job, params: &Params) -> (Cover, Vec<Violation>) {
 	let mut cover = Cover::default();
 	let mut out = Vec::new();
 	let env = Env::new(&u.schema);
-	let schema_text = gen::schema_text(&u.schema);
-	let cs = match gen::to_crate_schema(&u.schema) {
+	let schema_text = display_text(u);
+	let cs = match unit_crate_schema(u) {
 		Ok(s) => s,
+		Err(_) if u.text.is_some() => {
+			// a payload with an inapplicable logical type that the crate refuses: schema parsing is C07's subject
+			if job.sweep == "A" && job.prefix.iter().all(|k| *k == 0) {
+				cover.count("ignored_logical_units_rejected_by_the_crate", 1);
+			}
+			return (cover, out);
+		}
 		Err(e) => {
 			// the wrapper is the harness's construction: a rejected wrapper is not a C12 verdict
 			eprintln!("MACHINERY: C12 wrapper schema rejected by the crate: {e}");
 			std::process::exit(2);
 		}
 	};
+	if let Some((label, _)) = &u.text {
+		if lay::ignored_logical_no_verdict(label) {
+			// no-verdict zone (DESIGN.md §7): recorded in the evidence table, not judged
+			if job.sweep == "A" && job.prefix.iter().all(|k| *k == 0) {
+				cover.count("ignored_logical_units_not_judged(decimal with invalid parameters)", 1);
+			}
+			return (cover, out);
+		}
+	}
+	if u.text.is_some() && job.sweep == "A" && job.prefix.iter().all(|k| *k == 0) {
+		cover.count("ignored_logical_units", 1);
+	}
 	let ctx = Ctx { chunk_sizes: &params.chunk_sizes, u, cs: &cs, env: &env, schema_text: schema_text.clone(), verbose: false };
 	let base = |choices: Vec<usize>| json!({"check": "C12", "unit": u.id, "embedding": u.emb.name(), "schema": schema_text, "level_w1": params.level_w1, "level_other": params.level_other, "sweep_params": p.to_json(), "chunk_sizes": params.chunk_sizes, "sweep": job.sweep, "n": job.n, "choices": choices});
 	let what = format!("unit {} ({}) sweep {} n={} below picks {:?}", u.id, u.emb.name(), job.sweep, job.n, job.prefix);
@@ -910,7 +975,7 @@ fn run_job(u: &Unit, job: &Job, params: &Params) -> (Cover, Vec<Violation>) {
 				return true;
 			}
 			run_leaf(&ctx, &v, &bytes, &rec, &base(choices), None, &mut cover, &mut out);
-			out.len() < 100
+			out.len() < 100 || u.text.is_some()
 		});
 		cover.add_tree(&st, &what);
 	} else {
@@ -923,7 +988,7 @@ fn run_job(u: &Unit, job: &Job, params: &Params) -> (Cover, Vec<Violation>) {
 			}
 			cover.count("wide_leaves", 1);
 			run_leaf(&ctx, &v, &bytes, &rec, &base(ch.choices()), None, &mut cover, &mut out);
-			out.len() < 100
+			out.len() < 100 || u.text.is_some()
 		});
 		cover.add_tree(&st, &what);
 	}
@@ -934,7 +999,7 @@ pub fn run(rep: &mut Report) {
 	let p = if rep.thorough() { Params::thorough() } else { Params::quick() }.with_env_override();
 	let us = units(&p);
 	rep.rule = format!(
-		"SAE. Every schema S of Σ_S is embedded as W1 record{{ignored: S, sentinel: long}} (Σ_S level {}), and (Σ_S level {}) W2 record{{a: S, b: S renamed, sentinel}}, W3 record{{arr: array<S>, sentinel}} and record{{m: map<S>, sentinel}}, W4 record{{u: [S, long], sentinel}} (S not itself a union; [long, boolean] for S = long); and with the ignored part LAST and no padding, so that the skip ends exactly at the end of the input: L0 the bare datum S, L1 record{{sentinel: long, ignored: S}}, L4 record{{sentinel: long, u: [long, S]}} (targets one level below the field / the root; all other embeddings are followed by two padding bytes). Sweep A: every value of Σ_V × block layouts (all compositions of an occurrence into blocks × all sign assignments, negative count + byte size; occurrences enumerated jointly while the product of their layout counts <= the cap, one plan per start occurrence); sweep B: deterministic wide values × block layouts under a product cap. Bounds for wrappers with < 3 nested arrays/maps: {}. Bounds for wrappers with >= 3 nested arrays/maps: {}. Sentinel = {SENTINEL}. Each leaf is decoded with the full Hinted hint tree (non-ignoring) and once per ignoring target: every payload field absent from the target struct (W2: a, b, a+b), the whole datum → IgnoredAny, every sub-tree of the payload's hint tree → IgnoredAny (W1: all depths, incl. every element / every map key / every map value / union payloads; W3, W4: one level below the field), every taken non-null union branch as a unit variant; from slice, whole-buffer reader and 1-byte-chunk reader, and — for targets that skip a negative-count (size-prefixed) block — from readers refilling in uniform chunks of every size in {:?} that puts a refill boundary strictly inside a skipped block. Oracle: the ignoring decode is Ok, its observation equals the non-ignoring observation with the ignored part blanked (so the sentinel and every other field are identical), and it consumes exactly the encoded length according to the reference model (= what the non-ignoring decode consumes). Targets that the value does not reach (branch not taken) are not executed. Non-trivial: (schema, bytes, target) where an array/map handed directly to the skipping path is laid out in >= 2 blocks or has a negative-count block; distinct on that triple. Leaf cap {} per job (wrapper × sweep × pick prefix).",
+		"SAE. Every schema S of Σ_S is embedded as W1 record{{ignored: S, sentinel: long}} (Σ_S level {}), and (Σ_S level {}) W2 record{{a: S, b: S renamed, sentinel}}, W3 record{{arr: array<S>, sentinel}} and record{{m: map<S>, sentinel}}, W4 record{{u: [S, long], sentinel}} (S not itself a union; [long, boolean] for S = long); and with the ignored part LAST and no padding, so that the skip ends exactly at the end of the input: L0 the bare datum S, L1 record{{sentinel: long, ignored: S}}, L4 record{{sentinel: long, u: [long, S]}} (targets one level below the field / the root; all other embeddings are followed by two padding bytes). Private extra units: payloads X whose logical type the specification says to ignore (the list of `lay::ignored_logical_texts`: duration on fixed of size 0/4/11/13/16 and on bytes, invalid decimals, logical types on a wrong underlying type, an unknown logical type on every kind of type), embedded as W1 record{{ignored: X, sentinel}}, W3 record{{arr: array<X>, sentinel}} and L1 record{{sentinel, ignored: X}}; the crate is given the text, the reference reads X as its underlying type (texts the crate refuses are left to C07). Sweep A: every value of Σ_V × block layouts (all compositions of an occurrence into blocks × all sign assignments, negative count + byte size; occurrences enumerated jointly while the product of their layout counts <= the cap, one plan per start occurrence); sweep B: deterministic wide values × block layouts under a product cap. Bounds for wrappers with < 3 nested arrays/maps: {}. Bounds for wrappers with >= 3 nested arrays/maps: {}. Sentinel = {SENTINEL}. Each leaf is decoded with the full Hinted hint tree (non-ignoring) and once per ignoring target: every payload field absent from the target struct (W2: a, b, a+b), the whole datum → IgnoredAny, every sub-tree of the payload's hint tree → IgnoredAny (W1: all depths, incl. every element / every map key / every map value / union payloads; W3, W4: one level below the field), every taken non-null union branch as a unit variant; from slice, whole-buffer reader and 1-byte-chunk reader, and — for targets that skip a negative-count (size-prefixed) block — from readers refilling in uniform chunks of every size in {:?} that puts a refill boundary strictly inside a skipped block. Oracle: the ignoring decode is Ok, its observation equals the non-ignoring observation with the ignored part blanked (so the sentinel and every other field are identical), and it consumes exactly the encoded length according to the reference model (= what the non-ignoring decode consumes). Targets that the value does not reach (branch not taken) are not executed. Non-trivial: (schema, bytes, target) where an array/map handed directly to the skipping path is laid out in >= 2 blocks or has a negative-count block; distinct on that triple. Leaf cap {} per job (wrapper × sweep × pick prefix).",
 		p.level_w1,
 		p.level_other,
 		p.normal.text(),
@@ -943,7 +1008,7 @@ pub fn run(rep: &mut Report) {
 		p.max_leaves
 	);
 	rep.assumptions.push("reference encoder/decoder (vmodel) implements the Avro 1.11 binary encoding; the encoded length is the reference's".into());
-	rep.assumptions.push("where the non-ignoring decode itself fails or mis-reads the sentinel (C03's subject) the leaf is not judged (counter baseline_decode_unusable)".into());
+	rep.assumptions.push("where the non-ignoring decode itself fails or mis-reads the sentinel (C03's subject) only the targets that leave the whole payload unread are judged, against the reference model's observation and length (counters baseline_decode_unusable, judged_against_the_reference_only)".into());
 	rep.assumptions.push("runs in-process under catch_unwind: all inputs are valid encodings".into());
 	let debug = std::env::var("VERIF_DEBUG").is_ok();
 	let js = jobs(&us, &p);
@@ -986,6 +1051,7 @@ pub fn run(rep: &mut Report) {
 		"wide_leaves",
 		"leaves_ending_the_input",
 		"targets_ending_the_input",
+		"ignored_logical_units",
 	];
 	for k in need {
 		if c.get(k).copied().unwrap_or(0) == 0 {
@@ -1011,13 +1077,19 @@ pub fn replay(v: &serde_json::Value) -> i32 {
 		eprintln!("unit {unit} not found");
 		return 2;
 	};
-	let schema_text = gen::schema_text(&u.schema);
+	let schema_text = display_text(u);
 	if Some(schema_text.as_str()) != r["schema"].as_str() || Emb::parse(r["embedding"].as_str().unwrap_or("")) != Some(u.emb) {
 		eprintln!("unit {unit} is now {} {schema_text}, the replay file was recorded for {} {}", u.emb.name(), r["embedding"], r["schema"]);
 		return 2;
 	}
 	let env = Env::new(&u.schema);
-	let cs = gen::to_crate_schema(&u.schema).unwrap();
+	let cs = match unit_crate_schema(u) {
+		Ok(cs) => cs,
+		Err(e) => {
+			eprintln!("{e}");
+			return 2;
+		}
+	};
 	let ctx = Ctx { chunk_sizes: &params.chunk_sizes, u, cs: &cs, env: &env, schema_text: schema_text.clone(), verbose: true };
 	let choices: Vec<usize> = r["choices"].as_array().map(|a| a.iter().map(|c| c.as_u64().unwrap() as usize).collect()).unwrap_or_default();
 	let mut ch = Chooser::replay(choices);
